@@ -67,6 +67,20 @@ def write_doc(rng, name, doc):
         f.write(data)
 
 
+def odd_spelling(rng, path):
+    """The same file under a name that is not in normal form: the reports must show the
+    name as it was listed."""
+    r = rng.random()
+    d, b = os.path.split(path)
+    if r < 0.8:
+        return path
+    if r < 0.87:
+        return d + '//' + b
+    if r < 0.94:
+        return d + '/./' + b
+    return os.path.join(d, '..', os.path.basename(d), b)
+
+
 def read_text_exact(path):
     with open(path, encoding='utf-8', newline='') as f:
         return f.read()
@@ -83,6 +97,7 @@ def make_files(s, rng, tmpdir, n, for_merge=False):
         r = rng.random()
         name = os.path.join(tmpdir, rng.choice(['f%02d-%d.mos.xml', 'f %02d %d.mos.xml', 'fé%02d-%d ü.mos.xml', 'f[%02d]-%d.mos.xml', 'f%02d-%d*?.mos.xml']) %
                             (k, rng.randint(0, 999)))
+        name = odd_spelling(rng, name)
         if r < 0.6:
             kind = rng.choice(B.ALL_KINDS + ('roCreate',))
             if kind == 'roCreate':
@@ -108,7 +123,8 @@ def make_files(s, rng, tmpdir, n, for_merge=False):
                                               '</roElementAction></mos>']))
             files.append((name, 'unknown'))
         elif r < 0.92:
-            files.append((os.path.join(tmpdir, 'missing-%d.mos.xml' % k), 'missing'))
+            files.append((rng.choice([os.path.join(tmpdir, 'missing-%d.mos.xml' % k), '~mosromgr-no-such-user/ro-%d.xml' % k,
+                                      '', tmpdir + '/']), 'missing'))
         else:
             d = os.path.join(tmpdir, 'dir-%d' % k)
             os.makedirs(d, exist_ok=True)
@@ -135,6 +151,7 @@ def judge_detect_inspect(s, cmd, files):
     wit = {'type': 'cli', 'judge': 'detect_inspect', 'cmd': cmd, 'argv': argv,
            'files': [(f, k, (open(f, 'rb').read().decode('latin-1') if os.path.isfile(f) else None)) for f, k in files]}
     problems = []
+    exact = ''            # the report, character for character (None once the library's own inspect() raised)
     MosFile = s.mt.MosFile
     for f, kind in files:
         EV.STATE['quiet'] = EV.STATE.get('quiet', 0) + 1
@@ -146,10 +163,21 @@ def judge_detect_inspect(s, cmd, files):
         finally:
             EV.STATE['quiet'] -= 1
         if mo is None:
-            if f not in err:
-                problems.append(('bad-file-not-marked-on-stderr', f, kind))
+            if f not in err or not f:
+                if f or ': Invalid' not in err:
+                    problems.append(('bad-file-not-marked-on-stderr', f, kind))
             continue
         want = '%s: %s%s' % (f, type(mo).__name__, ' (completed)' if mo.completed else '')
+        if exact is not None:
+            exact += want + '\n'
+            if inspect:
+                raw = io.StringIO()
+                try:
+                    with contextlib.redirect_stdout(raw):
+                        mo.inspect()
+                    exact += raw.getvalue() + '\n'
+                except Exception:
+                    exact = None
         try:
             p = lines.index(want, pos)
         except ValueError:
@@ -170,9 +198,16 @@ def judge_detect_inspect(s, cmd, files):
                     except ValueError:
                         problems.append(('inspect-line-missing', il, type(mo).__name__))
                         break
+    # blank separator lines are presentation, not part of the claim; '\n' is the only line boundary
+    squeeze = lambda t: '\n'.join(ln for ln in t.split('\n') if ln != '')
+    if exact is not None and not problems and squeeze(out) != squeeze(exact):
+        k = next((i for i, (a, b) in enumerate(zip(out, exact)) if a != b), min(len(out), len(exact)))
+        problems.append(('stdout-differs-from-library-report', {'at': k, 'got': out[max(0, k - 30):k + 30],
+                                                                 'want': exact[max(0, k - 30):k + 30]}, 'exact'))
     s.evaluations += 1
     s.note_sig((cmd, pattern[:6], rc, bool(problems)))
     s.hist['cli:' + cmd] += 1
+    s.hist['cli:%s:exact-compared' % cmd] += int(exact is not None)
     if 'vmv' in pattern.replace('c', 'v').replace('d', 'm').replace('x', 'm').replace('u', 'm'):
         s.hist['cli:%s:bad-between-good' % cmd] += 1
     for pkind, what, k in problems[:3]:
